@@ -10,11 +10,18 @@ Open Scope list_scope.
 (* 0. More facts about sort_stable                                         *)
 (* ====================================================================== *)
 
-(* The sort is stable (SerialProofs.sort_stable_is_stable), like Python's sorted: among imports of the
-   same module and from-ness the FIRST one in input order is kept, as add_import does. *)
+(* The sort is stable (SerialProofs.sort_stable_is_stable), like Python's sorted.  Before the F37 repair this
+   decided which of several imports of the same module and from-ness was kept (the FIRST one in input order);
+   the repaired key breaks these ties by the alias, so the one with the smallest alias is kept whatever the
+   input order (SerialProofs3.import_manager_order_independent). *)
 Example import_manager_keeps_first_of_tied :
   map import_format (import_manager [ {| i_module := "a.b"; i_from := false; i_alias := Some "x" |};
                                       {| i_module := "a.b"; i_from := false; i_alias := Some "y" |} ])
+  = ["import a.b as x"].
+Proof. vm_compute. reflexivity. Qed.
+Example import_manager_keeps_smallest_alias_of_tied :
+  map import_format (import_manager [ {| i_module := "a.b"; i_from := false; i_alias := Some "y" |};
+                                      {| i_module := "a.b"; i_from := false; i_alias := Some "x" |} ])
   = ["import a.b as x"].
 Proof. vm_compute. reflexivity. Qed.
 
@@ -461,18 +468,18 @@ Proof.
                 (NoDup_sorted_key l Hm)) as Hstrict.
   rewrite <- (map_id l). eapply StronglySorted_map_rel; [|exact Hstrict].
   intros x y Hxy. unfold key_lt, sorted_key_ltb, sorted_key in Hxy. cbn [fst snd] in Hxy.
-  unfold key_le, import_key_ltb.
+  unfold key_le, import_key_ltb, import_key_ltb_noalias.
   destruct (is_feature_module (i_module x)) eqn:Fx, (is_feature_module (i_module y)) eqn:Fy;
     cbn in Hxy |- *; try reflexivity; try discriminate Hxy.
-  - unfold import_key_ltb_orig.
+  - unfold import_key_ltb_orig. rewrite (String.eqb_sym (i_module x) (i_module y)).
     destruct (String.eqb_spec (i_module y) (i_module x)) as [E|N].
     + rewrite E, string_ltb_irrefl in Hxy. discriminate Hxy.
-    + destruct (String.ltb (i_module y) (i_module x)) eqn:E; [|reflexivity].
+    + rewrite Hxy. destruct (String.ltb (i_module y) (i_module x)) eqn:E; [|reflexivity].
       rewrite <- (string_ltb_irrefl (i_module x)). symmetry. eapply string_ltb_trans; eassumption.
-  - unfold import_key_ltb_orig.
+  - unfold import_key_ltb_orig. rewrite (String.eqb_sym (i_module x) (i_module y)).
     destruct (String.eqb_spec (i_module y) (i_module x)) as [E|N].
     + rewrite E, string_ltb_irrefl in Hxy. discriminate Hxy.
-    + destruct (String.ltb (i_module y) (i_module x)) eqn:E; [|reflexivity].
+    + rewrite Hxy. destruct (String.ltb (i_module y) (i_module x)) eqn:E; [|reflexivity].
       rewrite <- (string_ltb_irrefl (i_module x)). symmetry. eapply string_ltb_trans; eassumption.
 Qed.
 
@@ -594,22 +601,23 @@ Example C06_reserved_gin_realiased :
 Proof. vm_compute. split; reflexivity. Qed.
 
 (* ---- the order in which the manager adds statements is a strict weak order: the pull-back of a strict
-   total order on the key (not feature, (module, not from)) ---- *)
-Definition import_sort_key (a : simport) : bool * (string * bool) :=
+   total order on the key (not feature, (module, (not from, alias or ''))) ---- *)
+(* the key of the code before the F37 repair: (not feature, (module, not from)) *)
+Definition import_sort_key_noalias (a : simport) : bool * (string * bool) :=
   (negb (is_feature_module (i_module a)), (i_module a, negb (i_from a))).
-Definition import_sort_key_ltb : bool * (string * bool) -> bool * (string * bool) -> bool :=
+Definition import_sort_key_noalias_ltb : bool * (string * bool) -> bool * (string * bool) -> bool :=
   lex_ltb bool_ltb (lex_ltb String.ltb bool_ltb).
 
-Theorem import_sort_key_ltb_strict_total : strict_total import_sort_key_ltb.
+Theorem import_sort_key_noalias_ltb_strict_total : strict_total import_sort_key_noalias_ltb.
 Proof.
   apply lex_strict_total; [apply bool_ltb_strict_total|].
   apply lex_strict_total; [apply string_ltb_strict_total | apply bool_ltb_strict_total].
 Qed.
 
-Theorem import_key_ltb_as_key : forall a b,
-  import_key_ltb a b = import_sort_key_ltb (import_sort_key a) (import_sort_key b).
+Theorem import_key_ltb_noalias_as_key : forall a b,
+  import_key_ltb_noalias a b = import_sort_key_noalias_ltb (import_sort_key_noalias a) (import_sort_key_noalias b).
 Proof.
-  intros a b. unfold import_key_ltb, import_sort_key_ltb, import_sort_key, lex_ltb. cbn [fst snd].
+  intros a b. unfold import_key_ltb_noalias, import_sort_key_noalias_ltb, import_sort_key_noalias, lex_ltb. cbn [fst snd].
   assert (Horig : import_key_ltb_orig a b =
                   (if String.ltb (i_module a) (i_module b) then true
                    else if String.ltb (i_module b) (i_module a) then false
@@ -621,6 +629,39 @@ Proof.
       destruct (String.ltb (i_module b) (i_module a)) eqn:E2; [reflexivity|].
       exfalso. apply N. apply string_ltb_total; assumption. }
   destruct (is_feature_module (i_module a)), (is_feature_module (i_module b)); cbn; try reflexivity; exact Horig.
+Qed.
+
+(* the repaired key (F37): (not feature, (module, (not from, alias or ''))) *)
+Definition import_sort_key (a : simport) : bool * (string * (bool * string)) :=
+  (negb (is_feature_module (i_module a)), (i_module a, (negb (i_from a), alias_str a))).
+Definition import_sort_key_ltb : bool * (string * (bool * string)) -> bool * (string * (bool * string)) -> bool :=
+  lex_ltb bool_ltb (lex_ltb String.ltb (lex_ltb bool_ltb String.ltb)).
+
+Theorem import_sort_key_ltb_strict_total : strict_total import_sort_key_ltb.
+Proof.
+  apply lex_strict_total; [apply bool_ltb_strict_total|].
+  apply lex_strict_total; [apply string_ltb_strict_total|].
+  apply lex_strict_total; [apply bool_ltb_strict_total | apply string_ltb_strict_total].
+Qed.
+
+(* a 4-fold lexicographic order is the 3-fold one with the ties broken by the last component *)
+Lemma lex4_as_lex3_tiebreak : forall K1 K2 K3 K4 (l1 : K1 -> K1 -> bool) (l2 : K2 -> K2 -> bool)
+    (l3 : K3 -> K3 -> bool) (l4 : K4 -> K4 -> bool) a1 a2 a3 a4 b1 b2 b3 b4,
+  lex_ltb l1 (lex_ltb l2 (lex_ltb l3 l4)) (a1, (a2, (a3, a4))) (b1, (b2, (b3, b4))) =
+  (if lex_ltb l1 (lex_ltb l2 l3) (a1, (a2, a3)) (b1, (b2, b3)) then true
+   else if lex_ltb l1 (lex_ltb l2 l3) (b1, (b2, b3)) (a1, (a2, a3)) then false
+   else l4 a4 b4).
+Proof.
+  intros. unfold lex_ltb. cbn [fst snd].
+  destruct (l1 a1 b1), (l1 b1 a1); try reflexivity.
+  destruct (l2 a2 b2), (l2 b2 a2); reflexivity.
+Qed.
+
+Theorem import_key_ltb_as_key : forall a b,
+  import_key_ltb a b = import_sort_key_ltb (import_sort_key a) (import_sort_key b).
+Proof.
+  intros a b. unfold import_key_ltb, import_sort_key_ltb, import_sort_key.
+  rewrite lex4_as_lex3_tiebreak, !import_key_ltb_noalias_as_key. reflexivity.
 Qed.
 
 Lemma sort_stable_key_ext : forall A K1 K2 (k1 : A -> K1) (l1 : K1 -> K1 -> bool) (k2 : A -> K2) (l2 : K2 -> K2 -> bool),
@@ -703,7 +744,7 @@ Section FeatureKept.
           assert (Hin' : In i r) by (destruct Hin as [->|Hin]; [contradiction N; reflexivity | exact Hin]).
           assert (Hfst : is_feature_module (i_module st) = true).
           { rewrite Forall_forall in Hall. specialize (Hall i Hin').
-            unfold key_le, import_key_ltb in Hall. rewrite Hfeat in Hall.
+            unfold key_le, import_key_ltb, import_key_ltb_noalias in Hall. rewrite Hfeat in Hall.
             destruct (is_feature_module (i_module st)); [reflexivity | cbn in Hall; discriminate Hall]. }
           destruct (Hother st (Hincl st (or_introl eq_refl)) Hfst N) as [Hne Hnek].
           repeat split; [exact Hin' | |].
